@@ -24,6 +24,7 @@ func init() {
 			"Q6 the same for a frozen table of 56 content-carrying AST fields and their node's format method. " +
 			"Q7 while the compiler appends the bindings generated for a wildcard to the same list, every printing loop of BindStms.format leaves on Id == \"*\". " +
 			"Q8-Q10 every comment list of a call, retain entry and collection element is printed exactly once on every path; Q11 the in-place topological sort re-examines the slot it filled by shifting (index not advanced on that back edge). " +
+			"Q12 the comments attached to the operand of a split are printed. " +
 			"NOT decided: idempotence, comment placement, number printing, topological order, include-expanded rendering.",
 		Assumptions: commonAssumptions,
 	}
